@@ -238,6 +238,14 @@ def ts(t):
             return "/* a comment */ " + ts(t["a"]) + " // trailing\n"
         if d == "jsdoc":
             return ts(t["a"])      # the doc comment itself is printed by _members in front of the key
+        if d == "labels":       # a labeled tuple: [e0: T0, e1: T1, ...rest: Array<R>]
+            a = t["a"]
+            if a["t"] != "tuple":
+                return ts(a)
+            parts = [f"e{i}: {ts(e)}" for i, e in enumerate(a["es"])]
+            if a["r"]:
+                parts.append(f"...rest: Array<{ts(a['r'][0])}>")
+            return "[" + ", ".join(parts) + "]"
         if d == "readonly":
             a = t["a"]
             if a["t"] == "arr":
